@@ -11,7 +11,7 @@ class C15(PropBase):
     id = 'C15'
     rule = ('histories of create / set / update / read / exists / find over a small alphabet of Sids (files sharing a sidecar, siblings, folder entities, parents, a typed Sid '
             'without path, an untyped Sid) and attribute keys; every history starts from an empty tree; after each history the real tree is compared with the model tree; '
-            'quick: all histories of <= 2 operations over a reduced alphabet + random histories <= 10; non-trivial = a history with at least one successful write; '
+            'quick: all histories of <= 2 operations over a reduced alphabet + random histories <= 10 (half of them writing through two long-lived writer objects taking turns); non-trivial = a history with at least one successful write; '
             'distinct by operation sequence')
     partial_note = 'a new process is exercised by re-reading through a second worker process on the same tree (sampled); real-kernel durability is not modelled'
     def confdir(self, ws):
@@ -82,7 +82,17 @@ class C15(PropBase):
         for _ in range(nrand):
             hid += 1
             seq = [rng.choice(creates) for _ in range(rng.randint(1, 3))] + [rng.choice(full) for _ in range(rng.randint(3, maxlen))]
+            if rng.random() < 0.5:
+                # the writes of this history go through two long-lived writer objects taking turns (and some through throw-away ones)
+                seq = [(op, args + [rng.choice(['A', 'B', 'A', 'B', ''])]) if op.startswith('w_') else (op, args) for op, args in seq]
             out.extend(self.history(seq, hid))
+        # two writer objects (as two tools or processes would hold) writing the same entity alternately: what is read is the overlay in call order
+        for n in (['F1', 'D1', 'F2', 'G1'] if tier == 'quick' else sorted(withp)):
+            hid += 1
+            s = dl.ALPHABET[n]
+            seq = [('w_create', ['', s, [['a', '1']], 'A']), ('w_update', ['', s, [['b', '2']], 'B']), ('w_set', ['', s, 'c', 'x y', 'A']),
+                   ('get_data_paths_new', ['', ['s', s], [], 'str']), ('w_set', ['', s, 'a', '3', 'B']), ('w_update', ['', s, [['d', '4']], 'A'])]
+            out.extend(self.history(seq, hid, extra_reads=[s]))
         out.append(Case('fs_reset', [], 'setup', {'h': 0}))
         return out
     def compare(self, case, model, impl):
